@@ -3,8 +3,12 @@ import C2paModel.Base
 C11 — model of `container_from_stream`, `container_from_format`, `format_from_stream`
 (sdk/src/jumbf_io.rs) and `normalize_format` (sdk/src/utils/mime.rs).
 
-* a stream is its full byte list; the sniff buffer is the first `min 16 len` bytes (one
-  `read` on an in-memory/regular-file stream; short reads are the subject of C35);
+* a stream is its full byte list. `detect` is the abstract layer: the sniff buffer is the first
+  `min 16 len` bytes. `detectIO` is the I/O-level layer that follows the code's read loop: a
+  *read script* says what each successive `Read::read` call does (short read of at most `k` bytes,
+  `Interrupted`, hard error) and `seekFail` which `seek` call fails; Props/C11 proves that
+  `detectIO` refines `detect` for every script without hard errors (`detectIO_refines`), and that
+  a hard error while sniffing makes the hint win;
 * format strings are `List Char`, ASCII (protocol restriction): `trim` removes ASCII
   white space, `to_lowercase` maps A–Z;
 * the container map is a *parameter* (`Table`), regenerated from the running code into
@@ -57,36 +61,61 @@ def firstMatch : List (Bool × Fmt) → Option Fmt
   | [] => none
   | (c, d) :: rs => if c then some d else firstMatch rs
 
-/-- The magic tests of `container_from_stream`, in source order, as (condition, result).
-`buf` is the sniff buffer (first ≤ 16 bytes), `s` the whole stream (the ID3 branch seeks). The
-ID3 branch `return if is_flac { flac } else { mp3 }` is the two consecutive ID3 rules. -/
-def rules (pdf : Bool) (s : List UInt8) : List (Bool × Fmt) :=
-  let buf := s.take 16
-  let id3 := decide (buf.length ≥ 10) && sliceEq buf 0 (b "ID3")
+/-! Magic byte strings as explicit lists (so that no proof or kernel evaluation has to decode a
+string literal); Props/C11 `magic_spelling` ties them to their ASCII spelling. -/
+abbrev mGIF87a : List UInt8 := [0x47, 0x49, 0x46, 0x38, 0x37, 0x61]
+abbrev mGIF89a : List UInt8 := [0x47, 0x49, 0x46, 0x38, 0x39, 0x61]
+abbrev mRIFF : List UInt8 := [0x52, 0x49, 0x46, 0x46]
+abbrev mFtyp : List UInt8 := [0x66, 0x74, 0x79, 0x70]
+abbrev mFLaC : List UInt8 := [0x66, 0x4c, 0x61, 0x43]
+abbrev mID3 : List UInt8 := [0x49, 0x44, 0x33]
+abbrev mPDF : List UInt8 := [0x25, 0x50, 0x44, 0x46]
+
+/-- `n >= 10 && &buf[0..3] == b"ID3"`: the only test after which the code looks beyond the
+sniff buffer. -/
+def isId3 (buf : List UInt8) : Bool := decide (buf.length ≥ 10) && sliceEq buf 0 mID3
+
+/-- The magic tests of `container_from_stream`, in source order, as (condition, result), over the
+sniff buffer `buf` (first ≤ 16 bytes) and the outcome `flac` of the ID3 branch's
+seek-and-`read_exact` probe ("the four bytes after the tag are fLaC"). The ID3 branch
+`return if is_flac { flac } else { mp3 }` is the two consecutive ID3 rules. -/
+def rulesB (pdf : Bool) (buf : List UInt8) (flac : Bool) : List (Bool × Fmt) :=
+  let id3 := isId3 buf
   [ (sliceEq buf 0 [0xff, 0xd8, 0xff], lJpg),
     (sliceEq buf 0 [0x89, 0x50, 0x4e, 0x47, 0x0d, 0x0a, 0x1a, 0x0a], lPng),
-    (sliceEq buf 0 (b "GIF87a") || sliceEq buf 0 (b "GIF89a"), lGif),
+    (sliceEq buf 0 mGIF87a || sliceEq buf 0 mGIF89a, lGif),
     (sliceEq buf 0 [0x49, 0x49, 0x2A, 0x00] || sliceEq buf 0 [0x4D, 0x4D, 0x00, 0x2A]
       || sliceEq buf 0 [0x49, 0x49, 0x2B, 0x00] || sliceEq buf 0 [0x4D, 0x4D, 0x00, 0x2B], lTif),
     (sliceEq buf 0 [0x00, 0x00, 0x00, 0x0c, 0x4a, 0x58, 0x4c, 0x20, 0x0d, 0x0a, 0x87, 0x0a], lJxl),
-    (sliceEq buf 0 (b "RIFF"), lAvi),
-    (sliceEq buf 4 (b "ftyp"), lAvif),
-    (sliceEq buf 0 (b "fLaC"), lFlac),
-    (id3 && sliceEq s (10 + id3Size buf) (b "fLaC"), lFlac),
+    (sliceEq buf 0 mRIFF, lAvi),
+    (sliceEq buf 4 mFtyp, lAvif),
+    (sliceEq buf 0 mFLaC, lFlac),
+    (id3 && flac, lFlac),
     (id3, lMp3),
     (buf.getD 0 0 == 0xff && (buf.getD 1 0).toNat / 32 == 7, lMp3) ]
-  ++ (if pdf then [(sliceEq buf 0 (b "%PDF"), lPdf)] else [])
+  ++ (if pdf then [(sliceEq buf 0 mPDF, lPdf)] else [])
 
-/-- `container_from_stream` (with the `pdf` feature flag as a parameter). -/
+/-- The magic tests applied to a sniff buffer and the outcome of the ID3 probe (`n < 2 ⇒ None`,
+then the first rule that holds). -/
+def detectB (pdf : Bool) (buf : List UInt8) (probe : Bool) : Option Fmt :=
+  if buf.length < 2 then none else firstMatch (rulesB pdf buf probe)
+
+/-- `container_from_stream`, abstract layer (with the `pdf` feature flag as a parameter): `buf` is
+the first ≤ 16 bytes of the whole stream `s`, the ID3 probe looks at the four bytes at offset
+`10 + tag size` of `s`. -/
 def detect (pdf : Bool) (s : List UInt8) : Option Fmt :=
-  if (s.take 16).length < 2 then none else firstMatch (rules pdf s)
+  detectB pdf (s.take 16) (sliceEq s (10 + id3Size (s.take 16)) mFLaC)
 
-/-- `format_from_stream` -/
-def resolve (t : Table) (pdf : Bool) (hint : Fmt) (s : List UInt8) : Fmt :=
-  match containerFromFormat t hint, detect pdf s with
+/-- The `match (hinted, detected)` of `format_from_stream`. -/
+def reconcile (t : Table) (hint : Fmt) (detected : Option Fmt) : Fmt :=
+  match containerFromFormat t hint, detected with
   | some h, some d => if h == d then hint else d
   | none, some d => d
   | _, none => hint
+
+/-- `format_from_stream` -/
+def resolve (t : Table) (pdf : Bool) (hint : Fmt) (s : List UInt8) : Fmt :=
+  reconcile t hint (detect pdf s)
 
 /-- Every literal that `detect` can return (in rule order). -/
 def detectLiterals (pdf : Bool) : List Fmt :=
@@ -98,13 +127,82 @@ literal is a container id mapping to itself. -/
 def TableOk (t : Table) (pdf : Bool) : Bool :=
   (detectLiterals pdf).all (fun d => containerFromFormat t d == some d)
 
-/-! ### line protocol: `detect pdf=<0|1> hint=<hex> data=<hex>` → `<detected|-> <resolved-hex>` -/
+/-! ### I/O-level layer: the read loop of `container_from_stream` -/
+
+/-- What one `Read::read` call does: deliver at most `k` bytes (`chunk 0` = a premature `Ok(0)`),
+fail with `ErrorKind::Interrupted`, or fail with any other error. -/
+inductive Ev where
+  | chunk (k : Nat)
+  | intr
+  | fail
+  deriving DecidableEq, Repr
+
+/-- The fill loop `while n < want { match read(&mut buf[n..]) { Ok(0) => break, Ok(k) => n += k,
+Interrupted => continue, Err(_) => return None } }` — also the shape of `read_exact`'s default
+implementation. `avail` = bytes from the current stream position on; once the script is used up
+every read delivers everything asked for (an in-memory cursor). Returns the bytes obtained
+(`none` = hard error) and the unused rest of the script. -/
+def fill (want : Nat) : List Ev → List UInt8 → List UInt8 → Option (List UInt8) × List Ev
+  | [], avail, got => (some (got ++ avail.take (want - got.length)), [])
+  | ev :: rest, avail, got =>
+    if got.length ≥ want then (some got, ev :: rest) else
+    match ev with
+    | .fail => (none, rest)
+    | .intr => fill want rest avail got
+    | .chunk k =>
+      let piece := avail.take (min k (want - got.length))
+      if piece.isEmpty then (some got, rest)
+      else fill want rest (avail.drop piece.length) (got ++ piece)
+
+/-- `container_from_stream` on a stream whose `read` calls follow `script` and whose
+`seekFail`-th `seek` call (0-based: 0 = first rewind, 1 = rewind after sniffing, 2 = seek to the
+fLaC probe offset) fails. -/
+def detectIO (pdf : Bool) (script : List Ev) (seekFail : Option Nat) (s : List UInt8) : Option Fmt :=
+  if seekFail == some 0 then none else
+  match (fill 16 script s []).1 with
+  | none => none
+  | some buf =>
+    if seekFail == some 1 then none else
+    detectB pdf buf
+      (if seekFail == some 2 then false else
+        -- `seek(10 + tag size)`, `read_exact(4 bytes)` with the rest of the script, `== "fLaC"`
+        match (fill 4 (fill 16 script s []).2 (s.drop (10 + id3Size buf)) []).1 with
+        | some m => m == mFLaC
+        | none => false)
+
+/-- `format_from_stream` over the I/O-level detection. -/
+def resolveIO (t : Table) (pdf : Bool) (script : List Ev) (seekFail : Option Nat) (hint : Fmt)
+    (s : List UInt8) : Fmt :=
+  reconcile t hint (detectIO pdf script seekFail s)
+
+/-- `get_cailoader_handler`: the reader map (`CAI_READERS`, a parameter like the container map:
+format string ↦ identity of the handler instance stored under it) is looked up with the
+*normalised* format string. -/
+def readerOfKey (readers : Table) (k : Fmt) : Option Fmt :=
+  (readers.find? (fun e => e.1 == k)).map (·.2)
+
+def readerOf (readers : Table) (f : Fmt) : Option Fmt := readerOfKey readers (normalize f)
+
+/-! ### line protocol
+`detect pdf=<0|1> hint=<hex> data=<hex>` → `<detected|-> <family(hint)|-> <resolved-hex>`
+`detectio pdf=<0|1> hint=<hex> data=<hex> script=<c<k>|i|f,…|-> seekfail=<n|->` → `<detected|-> <resolved-hex>`
+`reader f=<hex>` → identity of the handler `get_cailoader_handler(f)` selects, or `-` -/
 
 def str? (s : String) : Option Fmt := (fromHex? s).map (·.map (fun u => Char.ofNat u.toNat))
 
 def hexOfFmt (f : Fmt) : String := toHex (f.map (fun c => UInt8.ofNat c.toNat))
 
-def handleWith (t : Table) (toks : List String) : String :=
+def ev? (tok : String) : Option Ev :=
+  if tok == "i" then some .intr
+  else if tok == "f" then some .fail
+  else match tok.toList with
+    | 'c' :: ds => (String.ofList ds).toNat?.map .chunk
+    | _ => none
+
+def script? (s : String) : Option (List Ev) :=
+  if s == "-" then some [] else (s.splitOn ",").mapM ev?
+
+def handleWith (t readers : Table) (toks : List String) : String :=
   match toks with
   | "detect" :: rest =>
     let pdf := field rest "pdf" == "1"
@@ -114,6 +212,18 @@ def handleWith (t : Table) (toks : List String) : String :=
       let fam := match containerFromFormat t hint with | some d => String.ofList d | none => "-"
       d ++ " " ++ fam ++ " " ++ hexOfFmt (resolve t pdf hint data)
     | _, _ => "bad-hex"
+  | "detectio" :: rest =>
+    let pdf := field rest "pdf" == "1"
+    let sf := (field rest "seekfail").toNat?
+    match str? (field rest "hint"), fromHex? (field rest "data"), script? (field rest "script") with
+    | some hint, some data, some sc =>
+      let d := match detectIO pdf sc sf data with | some d => String.ofList d | none => "-"
+      d ++ " " ++ hexOfFmt (resolveIO t pdf sc sf hint data)
+    | _, _, _ => "bad-arg"
+  | "reader" :: rest =>
+    match str? (field rest "f") with
+    | some f => match readerOf readers f with | some h => String.ofList h | none => "-"
+    | none => "bad-hex"
   | "norm" :: rest =>
     match str? (field rest "s") with
     | some s => hexOfFmt (normalize s)
